@@ -116,7 +116,7 @@ namespace bxdecay0 {
     double cone_theta     = config_.cone_theta_degree * M_PI / 180.0;
     double cone_aperture  = config_.cone_aperture_degree * M_PI / 180.0;
     double cone_aperture2 = std::numeric_limits<double>::quiet_NaN();
-    if (std::isnormal(config_.cone_aperture2_degree) and config_.cone_aperture2_degree >= 0.0) {
+    if (config_.cone_aperture2_degree >= 0.0) {
       cone_aperture2 = config_.cone_aperture2_degree * M_PI / 180.0;
     }
     double cx = std::cos(cone_phi) * std::sin(cone_theta);
@@ -221,7 +221,11 @@ namespace bxdecay0 {
     _rank_ = rank_;
     _cone_axis_ = make_vector3(cone_axis_x_, cone_axis_y_, cone_axis_z_);
     _cone_angle_ = cone_aperture_angle_;
-    if (std::isnormal(cone_aperture2_angle_) and cone_aperture2_angle_ >= 0.0) {
+    if (cone_aperture2_angle_ >= 0.0) {
+      if (cone_aperture_angle_ <= 0.0 or cone_aperture2_angle_ <= 0.0) {
+        // A null half-angle makes the rectangular window empty: no direction could ever be accepted
+        throw std::logic_error("bxdecay0::momentum_direction_lock_event_op::_set_: Invalid null cone angle for rectangular cut!");
+      }
       if (cone_aperture2_angle_ >= M_PI / 2) {
         throw std::logic_error("bxdecay0::momentum_direction_lock_event_op::_set_: Invalid cone angle 1 for rectangular cut (>=pi/2)!");      
       }
